@@ -1,0 +1,29 @@
+//go:build verif
+// +build verif
+
+package gobinlog
+
+import (
+	"context"
+
+	"github.com/Breeze0806/gobinlog/replication"
+)
+
+// Verification hooks: add-only, compiled only with the build tag "verif".
+
+// VerifParseEvents runs parseEvents on a caller-supplied event channel.
+func VerifParseEvents(s *Streamer, ctx context.Context, events <-chan replication.BinlogEvent,
+	send SendTransactionFunc) (Position, error) {
+	s.ctx = ctx
+	s.sendTransaction = send
+	pos, err := s.parseEvents(ctx, events)
+	if err != nil {
+		return pos, err
+	}
+	return pos, nil
+}
+
+// VerifStoredPosition returns the position the streamer keeps for its next attempt.
+func VerifStoredPosition(s *Streamer) Position {
+	return s.binlogPosition()
+}
